@@ -60,6 +60,14 @@ def install(I):
     M["ipaddress.addr.__str__"] = lambda I, o: IpStr(o.attrs["packed"], o.attrs["version"])
     M["typing.cast"] = lambda I, t, v: v
     M["struct.unpack_from"] = m_unpack_from
+    def m_round(I, x, ndigits=None):
+        if isinstance(x, (int,)) and not isinstance(x, bool) and ndigits is None:
+            return x
+        if isinstance(x, float) and not is_sym(ndigits):
+            return round(x, ndigits) if ndigits is not None else round(x)
+        return core.FloatExpr("round", (x, ndigits if ndigits is not None else -1))      # uninterpreted: equal only to itself
+
+    M["builtins.round"] = m_round
     M["os.path.getsize"] = lambda I, p: _stat_size(I, p)
     M["types.MappingProxyType"] = lambda I, d: d          # read-only VIEW of the same mapping (writes through it are not modelled)
     M["copy.deepcopy"] = m_deepcopy
